@@ -14,8 +14,11 @@
 //!   S2 (C19, O19.2 through the front end)  converting the front end's error to
 //!      `io::Error` returns (no panic), with kind InvalidData for syntax/data,
 //!      UnexpectedEof for EOF, and the very error that was injected for I/O;
-//!   S3 (C19, O19.3 through the front end) a syntax/EOF error's location is the
-//!      parser's location.
+//!   S3 (C19, O19.3 through the front end) a syntax/EOF error carries a location
+//!      inside the bytes delivered (first written as "the parser's location",
+//!      which a behaviour-preserving refactor - read the stream into memory,
+//!      parse the slice - rightly tripped: the two readers count columns
+//!      differently and the statement only asks for in-bounds).
 //!
 //! The target type is `serde::de::IgnoredAny`: the conversion step accepts or
 //! rejects (category Data) whatever the parser returned; neither outcome is
@@ -90,13 +93,26 @@ pub fn check_serde_client(case: &StreamCase, reference: &PRes, mon: &mut Mon) {
                 format!("{}: parser reported the injected read error, front end reports {:?} ({:?})", ctx(), cat, full),
             );
         }
-        if matches!(e.cat, Cat::Syntax | Cat::Eof) && matches!(cat, Category::Syntax | Category::Eof) && loc != e.loc {
-            mon.violate(
+    }
+    if matches!(cat, Category::Syntax | Category::Eof) {
+        // like every syntax/EOF error, the front end's carries a location inside the
+        // bytes that were delivered (not necessarily the plain parser's own: a front
+        // end that reads the stream into memory first reports the slice reader's)
+        let seen = crate::outcome::Seen::prefix(&case.input, shared.delivered.get().min(case.input.len()));
+        match loc {
+            None => mon.violate(
                 "C19",
                 "O19.3",
-                "serde front end reports another location than the parser".into(),
-                format!("{}: parser location {:?}, front end location {:?} ({:?})", ctx(), e.loc, loc, full),
-            );
+                format!("serde front end: {:?} error without a location", cat),
+                format!("{}: {:?} has no location", ctx(), full),
+            ),
+            Some((l, c)) if !crate::outcome::loc_in_bounds(&seen, l, c) => mon.violate(
+                "C19",
+                "O19.3",
+                "serde front end: location out of bounds".into(),
+                format!("{}: error {:?} reports line {} column {}, outside the {} bytes seen", ctx(), full, l, c, seen.len),
+            ),
+            Some(_) => {}
         }
     }
     beat();
